@@ -322,6 +322,7 @@ class Config:
         if isinstance(t, C.IntRange):
             s = path.fresh_sym('int', hint)
             path.add_def(z3.And(s.t >= t.lo, s.t <= t.hi))
+            M.mark_range(path, s.t, t.lo, t.hi)
             return s
         if t is C.Bool:
             return path.fresh_sym('bool', hint)
